@@ -373,8 +373,11 @@ def table(f, ins, env):
 '''
 
 
-def replay_python(recipe, ins, env, cfg, mode):
+def replay_python(recipe, ins, env, cfg, mode, spec=None):
     name, bcm, rcm, which = mode
+    spec_vals = None
+    if spec is not None:
+        spec_vals = [[float(x) for x in cell[1]] for cell in spec]
     return (f"# run as: FUNSOR_USE_TCO={cfg[0]} FUNSOR_TYPECHECK={cfg[1]} /venv/bin/python this_file.py\n"
             + gen_terms.PY_HEADER + "from funsor.domains import Real\n" + SNIPPET_HELPERS
             + f"def mk():\n    return {py_of(recipe)}\n"
@@ -383,7 +386,10 @@ def replay_python(recipe, ins, env, cfg, mode):
             + f"t = under({tuple(bcm)!r}, mk)\n"
             + (f"t = under({tuple(rcm)!r}, lambda: RE[{which!r}](t))\n" if rcm is not None else "")
             + "got = table(t, ins, env)\nprint('eager   ', expected)\nprint(" + repr(name) + ", got)\n"
-            + "FAILS = (expected != got)\n")
+            + f"SPEC = {spec_vals!r}   # value of the expression at every point of ins (Lean denote), row-major\n"
+            + "flat = [list(np.asarray(c, dtype=float).reshape(-1)) for c in got[1]]\n"
+            + "print('spec    ', SPEC)\n"
+            + "FAILS = (expected != got) or (SPEC is not None and flat != SPEC)\n")
 
 
 def py_of(r):
@@ -513,10 +519,12 @@ def check_records(ctx, cs, recs_by_cfg, base_seed, specs, use_model=True):
                                   "inputs": ins, "env": env},
                          expected=f"{ref_src}: " + str(exp)[:600],
                          got=str(o["tables"].get(v))[:600],
-                         python=replay_python(recipe, ins, env, cfg, m))
+                         python=replay_python(recipe, ins, env, cfg, m,
+                                              spec[1] if (spec is not None and spec[1] is not None) else None))
             ctx.count(f"cfg:{ctag}")
             ctx.count(f"family:{fam}")
             ctx.count("completed-evaluations", completed)
+            ctx.count("attempted-evaluations", len(o["modes"]))
             nt = gen_terms.recipe_size(recipe) >= 3 and completed >= 10 and len(ins) >= 1
             ctx.case(sample={"expr": py_of(recipe)[:240], "inputs": ins, "config": ctag,
                              "modes": len(o["modes"]), "completed": completed},
@@ -606,12 +614,24 @@ def check_anf(ctx, recs_by_cfg, use_driver=True):
         order = [int(x) for x in order]
         if topo != "true":
             ctx.infra_errors.append(f"model anf order not topological for case {idx}: {order}")
-        if order != a["order"]:
-            ctx.fail("correspondence", "C03.anf-order",
-                     witness={"graph": a["graph"], "root": a["root"], "model": order, "impl": a["order"],
-                              "config": list(cfg)})
+        # gate: the ordering the REAL anf returned satisfies the hypothesis of reinterpret_rec_eq_stack
+        kids = {i: ks for i, ks, _ in a["graph"]}
+        seen, ok = set(), len(set(a["order"])) == len(a["order"]) and a["order"][-1:] == [a["root"]]
+        for nid in a["order"]:
+            ok = ok and all(k in seen for k in kids.get(nid, []))
+            seen.add(nid)
+        ok = ok and seen == set(kids)
+        if not ok:
+            ctx.fail("correspondence", "C03.anf-not-topological",
+                     witness={"graph": a["graph"], "root": a["root"], "impl_order": a["order"], "config": list(cfg)},
+                     expected="children before parents, every node once, root last (hypothesis Topo of "
+                              "reinterpret_rec_eq_stack)", got=str(a["order"]))
             continue
-        ctx.count("anf-order-agrees")
+        ctx.count("anf-real-order-topological")
+        if order != a["order"]:
+            ctx.count("anf-order-differs-from-model (both topological: harmless)")
+        else:
+            ctx.count("anf-order-agrees")
         if calls:
             nf = sum(1 for _, _, isf in a["graph"] if isf)
             if calls["stack"] != nf:
@@ -719,6 +739,11 @@ def correspond(ctx):
         if got != n:
             ctx.infra_errors.append(f"configuration {cfg}: {got} of {n} cases reported")
     check_records(ctx, cs, recs, base_seed, specs)
+    done_, att_ = ctx.distribution.get("completed-evaluations", 0), ctx.distribution.get("attempted-evaluations", 0)
+    ctx.extra["completion_rate"] = round(done_ / max(att_, 1), 3)
+    if att_ and done_ / att_ < 0.65:
+        ctx.infra_errors.append(f"only {done_} of {att_} evaluations completed (normally ~83%): the gate 'whenever it "
+                                f"completes' would be vacuous — funsor raises almost everywhere on this tree")
     check_memo(ctx, recs)
     check_anf(ctx, recs)
     table_stream(ctx)
@@ -772,9 +797,18 @@ def demonstrate_collision(A, B, wit):
             if a[0] != "value" or b[0] != "value":
                 continue             # a side stays lazy (e.g. Align(Number, ())): inconclusive
             if W.digest(a[1]) != W.digest(b[1]):
+                py = ("import numpy as np\nfrom numpy import array\nfrom collections import OrderedDict\nimport funsor\n"
+                      "import funsor.ops as ops\nfrom funsor.domains import Bint, Real, Reals\nfrom funsor.tensor import Tensor\n"
+                      "from funsor.terms import Number, Variable\nfrom funsor.interpretations import lazy, memoize\n"
+                      f"from {X.__module__} import {X.__name__}\nfrom {Y.__module__} import {Y.__name__}\n"
+                      f"args = {args!r}\n"
+                      f"with lazy:\n    want = {Y.__name__}(*args)\n"
+                      f"with lazy:\n    with memoize():\n        first = {X.__name__}(*args)\n        got = {Y.__name__}(*args)\n"
+                      "print('without memoize:', want)\nprint('with memoize   :', got)\n"
+                      f"FAILS = (got is first) and not isinstance(got, {Y.__name__})\n")
                 return {"args": repr(args)[:300], "expected": f"{Y.__name__}{args!r} = {a}"[:500],
                         "got": f"cached {X.__name__} result {b}"[:500],
-                        "python": None}
+                        "python": py}
     return None
 
 
@@ -797,10 +831,10 @@ def search(ctx, broken):
         return
     # (2) 10x volume of the worker stream, python oracle only
     n, nshards = sizes(ctx)
-    n = min(n * 10, 6000)
+    n = min(n * 10, 2600)
     base_seed = ctx.rng.getrandbits(48)
     procs = launch_workers(base_seed, n, 4, ctx.tier)
     cs = W.cases(base_seed, n)
-    recs = collect(procs, ctx, timeout=1500)
+    recs = collect(procs, ctx, timeout=900)
     check_records(ctx, cs, recs, base_seed, {}, use_model=False)
     check_memo(ctx, recs, use_driver=False)
